@@ -1,5 +1,4 @@
 import BPT.Py.ApiSpec
-import BPT.Generated.TiePy
 /-
   C07 — the pure-Python BPlusTreeMap behaves like `dict` for every call history.
 
